@@ -131,7 +131,7 @@ def build(tier, wd, rng):
             nlmix[k] = i
     # the three real printers, run on the parsed default rendering of every base value; a printed text that does not
     # parse back to the same value (a printer defect, C09's business) is not a rendering of that value and is dropped
-    keys = sorted(k for k in dflt if vals[k]["gen"] == 0 or tier != "quick")
+    keys = sorted(k for k in dflt if vals[k]["gen"] == 0)
     ptexts, groups = [], []
     r1 = harness([D.text[dflt[k]] for k in keys], [], [], wd, "print", do_print=True)
     for k, pr in zip(keys, r1["printed"]):
@@ -192,10 +192,7 @@ def build(tier, wd, rng):
             add(dflt[t], dflt[s], "B near miss")
             if s in nlmix:
                 add(nlmix[s], dflt[t], "B near miss")
-            if t in nlmix and tier != "quick":
-                add(dflt[s], nlmix[t], "B near miss")
-                add(dflt[t], nlmix[s], "B near miss")
-    cap = 10 if tier == "quick" else 30
+    cap = 10 if tier == "quick" else 20
     classes = collections.defaultdict(list)
     for k in sorted(dflt):
         classes[vals[k]["sk"]].append(k)
